@@ -331,6 +331,11 @@ func dccAll(c *vf.Ctx) {
 			}
 			c.Check("C01/dcc/"+hl.f+"/verifies-under-hashcat-1100-rules", ok, w(hl.f, hl.line))
 		}
+		// the two entry points are two routes to ONE hashcat line
+		l1, l2 := dcc.DCCHashFromPasswordToHashcatString(p, u), dcc.DCCHashFromNTHashToHashcatString(ntr, u)
+		c.Check("C01/dcc/hashcat-line/password-and-nthash-entry-points-agree", l1 == l2, func() string {
+			return fmt.Sprintf("DCCHashFromPasswordToHashcatString(%q,%q) = %q but DCCHashFromNTHashToHashcatString(NT(%q),%q) = %q", p, u, l1, p, u, l2)
+		})
 	})
 	// DCC2: rounds lattice
 	rounds := []int{}
